@@ -57,6 +57,12 @@ pub fn cases(tier: Tier) -> Vec<Case> {
 
 /// the progress oracle, applied at every quiescent point and at the end
 pub fn judge_progress(e: &Exec) -> Vec<(String, String)> {
+    judge_progress_with(e, true)
+}
+
+/// `client_answers_everything`: the run ends only when the client has nothing left to answer, so an
+/// interrupt that is still open at the end was never announced
+pub fn judge_progress_with(e: &Exec, client_answers_everything: bool) -> Vec<(String, String)> {
     let mut v = vec![];
     if e.scheduler_dead {
         v.push((
@@ -103,7 +109,7 @@ pub fn judge_progress(e: &Exec) -> Vec<(String, String)> {
                 if last && e.arun.horizon_hit {
                     continue;
                 }
-                if last {
+                if last && client_answers_everything {
                     // nothing is enabled although an interrupt is open: the client never learnt of it
                     let open: Vec<String> = view
                         .tasks
@@ -173,9 +179,33 @@ impl Check for C01 {
         }
     }
     fn items(&self, tier: Tier) -> Vec<serde_json::Value> {
-        cases(tier).into_iter().enumerate().map(|(i, c)| json!({"id": c.id, "idx": i})).collect()
+        let mut v: Vec<serde_json::Value> = cases(tier).into_iter().enumerate().map(|(i, c)| json!({"id": c.id, "idx": i})).collect();
+        // client answers other than `complete`, also racing in-flight work
+        for (si, h) in hist_scenarios(tier).iter().enumerate() {
+            let (singles, roots) = crate::explore::split_frontier(h.bound, h.shards, |ch| {
+                run_hist(ch, h, false);
+            });
+            for (k, p) in singles.iter().enumerate() {
+                v.push(json!({"id": format!("{}#s{}", h.scn.id, k), "scenario": h.scn.id, "hist": si, "prefix": p, "single": true}));
+            }
+            for (k, p) in roots.iter().enumerate() {
+                v.push(json!({"id": format!("{}#{}", h.scn.id, k), "scenario": h.scn.id, "hist": si, "prefix": p, "single": false}));
+            }
+        }
+        v
     }
     fn run_item(&self, tier: Tier, item: &serde_json::Value, out: &mut ItemOut) {
+        if let Some(si) = item.get("hist").and_then(|x| x.as_u64()) {
+            let h = hist_scenarios(tier).swap_remove(si as usize);
+            let prefix: Vec<u32> = item["prefix"].as_array().unwrap().iter().map(|x| x.as_u64().unwrap() as u32).collect();
+            let single = item["single"].as_bool().unwrap();
+            let desc = json!({"scenario": h.scn.desc(), "history_length": h.cfg.max_ops, "actions": h.cfg.actions.iter().map(|a| a.0).collect::<Vec<_>>()});
+            explore_scenario_from(out, "C01", &h.scn.id, &desc, h.bound, h.cap, prefix.is_empty(), &prefix, single, spill_after(), &|ch, log| {
+                run_hist(ch, &h, log)
+            });
+            out.count("distinct_nontrivial", 1);
+            return;
+        }
         let idx = item["idx"].as_u64().unwrap() as usize;
         let c = cases(tier).swap_remove(idx);
         let scn_desc = json!({"model": c.yml, "vars": {"a": c.a, "b": c.b}, "policy": "complete-any-open-irq"});
@@ -186,4 +216,47 @@ impl Check for C01 {
             out.count("distinct_nontrivial", 1);
         }
     }
+}
+
+use super::hist::{HistCfg, history_name, run_history};
+use super::histchecks::{HScn, W2B, hscn_pub};
+use crate::wgen::{W2, W4};
+
+/// histories of other answers (submit, skip, remove, abort, error) on workflows with two open regions
+pub fn hist_scenarios(tier: Tier) -> Vec<HScn> {
+    let acts = vec![
+        ("complete", vec![json!({})]),
+        ("submit", vec![json!({})]),
+        ("skip", vec![json!({})]),
+        ("remove", vec![json!({})]),
+        ("abort", vec![json!({})]),
+        ("error", vec![json!({"ecode": "e1"})]),
+    ];
+    let mut v = vec![];
+    for y in [W2, W2B, W4] {
+        let c = HistCfg {
+            max_ops: tier.pick(2, 3),
+            actions: acts.clone(),
+            odd_targets: false,
+            terminal_targets: false,
+            back: false,
+            push: false,
+        };
+        v.push(hscn_pub("answers", y, false, c, Some(1), 32));
+    }
+    v
+}
+
+pub fn run_hist(ch: &mut Chooser, h: &HScn, want_log: bool) -> RunObs {
+    let hx = run_history(ch, &h.scn, &h.cfg);
+    let mut viols = judge_progress_with(&hx.e, false);
+    for p in &hx.e.panics {
+        if p.starts_with("client") {
+            viols.push(("client-panic".into(), format!("the API call {p} panicked")));
+        }
+    }
+    let outcome = format!("{}|{}", history_name(&hx.ops), hx.e.outcome_class());
+    let mut o = hx.e.to_obs(viols, outcome, want_log);
+    o.detail = hx.ops.iter().map(|o| format!("{}({})@{}{}", o.spec.kind, o.spec.nid, o.spec.target_class, if o.quiescent { "" } else { "!" })).collect::<Vec<_>>().join(",");
+    o
 }
